@@ -26,7 +26,7 @@ Member(p, l) == [st |-> "member", epoch |-> 2, ks |-> 2, leaf |-> l, tree |-> T0
 
 PInit ==
     /\ opt = [pathReq |-> FALSE, enc |-> FALSE, jit |-> 99999]
-    /\ obs = [st |-> "off"]
+    /\ obs = [st |-> "off"] /\ succ = <<>>
     /\ grp = [p \in Parties |-> CASE p = "p1" -> Member(p, 0) [] p = "p2" -> Member(p, 1) [] p = "p4" -> Member(p, 3) [] OTHER -> NoGroup]
     /\ zomb = [p \in Parties |-> <<>>]
     \* kp1: valid package of non-member p3; kp2: expired; kp3: package of p2, who is a member already
